@@ -1,10 +1,13 @@
 package h2x
 
 import (
+	"bytes"
 	"fmt"
 	"math/rand"
+	"strings"
 
 	"golang.org/x/net/http2"
+	"golang.org/x/net/http2/hpack"
 )
 
 // Profile selects the generator flavour. A case is (Profile, rng stream, index).
@@ -74,7 +77,7 @@ type Op struct {
 	WaitPP     bool     // client: wait for the PUSH_PROMISE announcing S first
 	WaitOpen   []uint32 // GOAWAY: wait until the peer has opened / promised all these streams
 	Inc        uint32   // OpWU increment
-	Edge     int      // >0: pad the field list so that the encoded block is (receiver's MAX_FRAME_SIZE - (Edge-1)) bytes long
+	Edge       int      // >0: pad the field list so that the encoded block is (receiver's MAX_FRAME_SIZE - (Edge-1)) bytes long
 	Phase      int
 }
 
@@ -146,8 +149,8 @@ type Plan struct {
 	BigFrames  [2]bool
 	Phases     []*Phase
 	NStreams   int
-	SlowWriter bool // the relay's writer goroutines are slowed down at the beforeSend hook point
-	PipeCap    int  // capacity of the in-memory client connection (0 = 1 MiB)
+	SlowWriter bool    // the relay's writer goroutines are slowed down at the beforeSend hook point
+	PipeCap    int     // capacity of the in-memory client connection (0 = 1 MiB)
 	SlowReader [2]bool // the endpoint's reader pauses before every frame (a destination that is slow to accept bytes)
 	Scn        string
 	NPush      int
@@ -405,7 +408,14 @@ func Gen(rng *rand.Rand, pf Profile, scn string) *Plan {
 			if c09 {
 				lim = 60
 			}
-			if p.WinClass[e] == "zero" && ph == 0 {
+			if scn == "raise-queued-end" && e == side && ph == 0 {
+				// the whole stream incl. END_STREAM is queued behind the tiny stream window; the receiver
+				// then opens it by raising INITIAL_WINDOW_SIZE (no WINDOW_UPDATE)
+				nv := int64(1 << 20)
+				p.addChange(ph, Change{E: e, ID: http2.SettingInitialWindowSize, Val: uint32(nv)}, nPh)
+				v = nv
+				raise = true
+			} else if p.WinClass[e] == "zero" && ph == 0 {
 				nv := []int64{1, 100, 5000, 65535}[rng.Intn(4)]
 				p.addChange(ph, Change{E: e, ID: http2.SettingInitialWindowSize, Val: uint32(nv)}, nPh)
 				v = nv
@@ -475,7 +485,7 @@ func Gen(rng *rand.Rand, pf Profile, scn string) *Plan {
 		}
 		// initial SETTINGS frame of endpoint e
 		var st []http2.Setting
-		if iws[e][0] != 65535 || rng.Intn(3) == 0 {
+		if iws[e][0] != 65535 || rng.Intn(3) == 0 || scn == "dup-settings" {
 			st = append(st, http2.Setting{ID: http2.SettingInitialWindowSize, Val: uint32(iws[e][0])})
 		}
 		if mfs[e][0] != 16384 || rng.Intn(4) == 0 {
@@ -493,7 +503,7 @@ func Gen(rng *rand.Rand, pf Profile, scn string) *Plan {
 		rng.Shuffle(len(st), func(i, j int) { st[i], st[j] = st[j], st[i] })
 		// the same identifier twice in one frame: legal, processed in order, the last value counts
 		// (only in the initial SETTINGS, where nothing can be queued yet)
-		if rng.Intn(5) == 0 {
+		if rng.Intn(5) == 0 || scn == "dup-settings" {
 			for i, x := range st {
 				var dup uint32
 				switch x.ID {
@@ -558,7 +568,26 @@ func Gen(rng *rand.Rand, pf Profile, scn string) *Plan {
 		// toward a connection-window-limited receiver: enough full-size frames to exhaust 65 535
 		// with a positive remainder (65 535 = 3 x 16 384 + 16 383)
 		heavy := p.WinClass[1-e] == "connlimited" || (c09 && p.WinClass[1-e] == "default")
-		if heavy {
+		small := false
+		switch scn {
+		case "bidi":
+			n, small = 10+rng.Intn(15), true // both directions of the stream keep needing credit
+		case "raise-queued-end":
+			if 1-e == side {
+				n, small = 5+rng.Intn(10), true
+			}
+		case "bighdr":
+			if e == side {
+				n, small = 30+rng.Intn(30), true // each DATA frame makes the relay write WINDOW_UPDATEs to us
+			}
+		case "backlog":
+			if 1-e == side {
+				heavy = true
+				n = 85 + rng.Intn(30) // > 1 MiB of full-size frames on one stream
+				budget = 4 << 20
+			}
+		}
+		if heavy && scn != "backlog" {
 			n = 4 + rng.Intn(8)
 			if budget < 262144/K {
 				budget = 262144 / K
@@ -578,6 +607,9 @@ func Gen(rng *rand.Rand, pf Profile, scn string) *Plan {
 			}
 			if big && rng.Intn(10) < 6 {
 				sz = 16385 + rng.Intn(16384)
+			}
+			if small {
+				sz = 1 + rng.Intn(200)
 			}
 			if p.SlowWriter && !c09 && !big && !heavy && rng.Intn(10) < 8 {
 				sz = 1 + rng.Intn(120) // many small frames: long queues behind tiny windows
@@ -607,7 +639,8 @@ func Gen(rng *rand.Rand, pf Profile, scn string) *Plan {
 		}
 		return ops, false
 	}
-	genHeaders := func(t int, kind string, end bool) *Op {
+	edgeN := rng.Intn(9)
+	genHeaders := func(e, t int, kind string, end bool) *Op {
 		o := &Op{K: OpHeaders, T: t, Fields: genFields(rng, pf, kind, t), End: end, Pad: -1, CutSeed: rng.Int63()}
 		if !c09 {
 			if rng.Intn(2) == 0 {
@@ -620,6 +653,21 @@ func Gen(rng *rand.Rand, pf Profile, scn string) *Plan {
 		}
 		if (kind == "req" || kind == "resp") && rng.Intn(3) == 0 {
 			o.Prio = genPrio(rng, t)
+		}
+		switch scn {
+		case "bighdr":
+			if 1-e == side && kind != "info" {
+				// every block of this sender is larger than a frame: the relay writes HEADERS + CONTINUATION
+				o.Fields = append(o.Fields, Field{N: "x-big", V: randString(rng, 17000+rng.Intn(25000)), S: rng.Intn(2) == 0})
+			}
+		case "edge-size":
+			if kind == "req" || kind == "resp" {
+				// HEADERS with priority whose encoded block ends within 0..8 bytes of the receiver's
+				// MAX_FRAME_SIZE (sized when the phase, hence that limit, is known)
+				o.Prio = genPrio(rng, t)
+				edgeN++
+				o.Edge = 1 + edgeN%9
+			}
 		}
 		return o
 	}
@@ -639,7 +687,7 @@ func Gen(rng *rand.Rand, pf Profile, scn string) *Plan {
 		case x < 6:
 			ops = append(ops, &Op{K: OpData, T: t, N: 0, Pad: -1, End: true})
 		default:
-			ops = append(ops, genHeaders(t, "trailer", true))
+			ops = append(ops, genHeaders(e, t, "trailer", true))
 		}
 		return ops
 	}
@@ -660,9 +708,9 @@ func Gen(rng *rand.Rand, pf Profile, scn string) *Plan {
 			ops = append(ops, &Op{K: OpPriority, T: ct, Prio: genPrio(rng, ct)})
 		}
 		noBody := rng.Intn(5) == 0 && !c09
-		h := genHeaders(ct, "req", false)
+		h := genHeaders(0, ct, "req", false)
 		ops = append(ops, h)
-		if rng.Intn(6) == 0 {
+		if rng.Intn(6) == 0 || scn == "earlygrant" {
 			// early grant: stream-level WINDOW_UPDATE right after the request HEADERS, before anything
 			// has travelled in the opposite direction on this stream (as curl/nghttp2 do); 2^30 covers
 			// any body, so the final ample-credit step grants nothing more on the stream
@@ -703,9 +751,9 @@ func Gen(rng *rand.Rand, pf Profile, scn string) *Plan {
 				sops = append(sops, &Op{K: OpRst, T: ct, Code: rstCode(rng)})
 			} else {
 				if !c09 && rng.Intn(8) == 0 {
-					sops = append(sops, genHeaders(ct, "info", false))
+					sops = append(sops, genHeaders(1, ct, "info", false))
 				}
-				hs := genHeaders(ct, "resp", false)
+				hs := genHeaders(1, ct, "resp", false)
 				sops = append(sops, hs)
 				if rng.Intn(6) == 0 && sp.kind != 3 && !c09 {
 					hs.End = true
@@ -723,7 +771,7 @@ func Gen(rng *rand.Rand, pf Profile, scn string) *Plan {
 								pt, ptn := newTrack()
 								pt.enabled = false
 								var pops []*Op
-								ph := genHeaders(ptn, "resp", false)
+								ph := genHeaders(1, ptn, "resp", false)
 								pops = append(pops, ph)
 								if rng.Intn(4) == 0 {
 									ph.End = true
@@ -782,6 +830,9 @@ func Gen(rng *rand.Rand, pf Profile, scn string) *Plan {
 	connOps := func(e int) []*Op {
 		var ops []*Op
 		n := rng.Intn(3)
+		if scn == "bighdr" && e != side {
+			n = 8 + rng.Intn(8) // PING / SETTINGS written directly to the destination of the big blocks
+		}
 		for i := 0; i < n; i++ {
 			switch rng.Intn(3) {
 			case 0:
@@ -914,7 +965,7 @@ func Gen(rng *rand.Rand, pf Profile, scn string) *Plan {
 			ppPhase[o.PT] = ph
 		}
 	}
-	if resplit >= 0 {
+	if resplit >= 0 || scn == "raise-queued-end" {
 		for _, o := range cl {
 			o.Phase = 0
 		}
@@ -960,11 +1011,15 @@ func Gen(rng *rand.Rand, pf Profile, scn string) *Plan {
 	// only after the peer has opened / promised all its streams, so that nobody opens a stream after
 	// receiving GOAWAY; debug data of varied lengths.
 	for e := 0; e < 2; e++ {
-		if c09 || rng.Intn(3) != 0 {
+		if c09 || (rng.Intn(3) != 0 && scn != "goaway") {
 			continue
 		}
 		o := &Op{K: OpGoAway, Code: uint32(rng.Intn(14)), Phase: nPh - 1}
-		switch rng.Intn(4) {
+		dl := rng.Intn(4)
+		if scn == "goaway" {
+			dl = 2
+		}
+		switch dl {
 		case 0:
 		case 1:
 			o.Debug = []byte(randString(rng, 1+rng.Intn(16)))
@@ -1021,6 +1076,9 @@ func Gen(rng *rand.Rand, pf Profile, scn string) *Plan {
 				maxL = fmax
 			}
 			for _, o := range phs.Ops[e] {
+				if o.K == OpHeaders && o.Edge > 0 {
+					sizeToEdge(o, int(mfs[rcv][phi])-(o.Edge-1))
+				}
 				if o.K != OpData {
 					continue
 				}
@@ -1087,6 +1145,9 @@ func Gen(rng *rand.Rand, pf Profile, scn string) *Plan {
 			if x == resplit && phi == 0 {
 				ns = 0 // the window stays shut until MAX_FRAME_SIZE has been lowered
 			}
+			if scn == "bidi" || ((scn == "backlog" || scn == "raise-queued-end") && x == side) {
+				ns = 0 // nothing is granted while the scripts run
+			}
 			var steps []Step
 			for i := 0; i < ns && n > 0; i++ {
 				st := Step{After: rng.Intn(n + 1), Act: "wu", Rep: 1}
@@ -1105,7 +1166,7 @@ func Gen(rng *rand.Rand, pf Profile, scn string) *Plan {
 				case "huge":
 					st.Inc = uint32(1<<20 + rng.Intn(1<<26))
 				}
-				if c09 && rng.Intn(3) == 0 {
+				if c09 && (rng.Intn(3) == 0 || (scn == "exact-heavy" && x == side && rng.Intn(3) != 0)) {
 					// exactly the credit that is missing right now, stream-level or connection-level first
 					st.Act, st.SF = "exact", rng.Intn(2) == 0
 				}
@@ -1139,6 +1200,12 @@ func Gen(rng *rand.Rand, pf Profile, scn string) *Plan {
 			if x == resplit && phi == 0 {
 				phs.EndAmple[x] = false
 			}
+			if scn == "raise-queued-end" && x == side && phi == 0 {
+				phs.EndAmple[x], phs.EndExact[x] = false, false
+			}
+			if scn == "exact-heavy" && x == side {
+				phs.EndExact[x] = true
+			}
 			for _, o := range phs.Ops[x] {
 				if o.WaitPP {
 					phs.EndAmple[x] = true // the promise may sit behind blocked DATA of its parent
@@ -1161,4 +1228,39 @@ func rstCode(rng *rand.Rand) uint32 {
 		return uint32(0x100 + rng.Intn(0xffff))
 	}
 	return uint32(rng.Intn(14))
+}
+
+// encodedLen is the length of the HPACK block a fresh encoder produces for fs.
+// For lists of never-indexed fields (C09 sessions) it does not depend on the
+// encoder's dynamic table, so it is also the length of the relay's re-encoding.
+func encodedLen(fs []Field) int {
+	var buf bytes.Buffer
+	enc := hpack.NewEncoder(&buf)
+	for _, f := range fs {
+		enc.WriteField(hpack.HeaderField{Name: f.N, Value: f.V, Sensitive: f.S})
+	}
+	return buf.Len()
+}
+
+// sizeToEdge appends a never-indexed filler field so that the encoded block is
+// exactly target bytes long ('X' has an 8-bit Huffman code, so the value is
+// sent raw and the length is linear in the number of characters).
+func sizeToEdge(o *Op, target int) {
+	base := append([]Field(nil), o.Fields...)
+	n := target - encodedLen(base) - 12
+	if n < 1 {
+		return
+	}
+	for i := 0; i < 8; i++ {
+		fs := append(append([]Field(nil), base...), Field{N: "x-fill", V: strings.Repeat("X", n), S: true})
+		d := target - encodedLen(fs)
+		if d == 0 {
+			o.Fields = fs
+			return
+		}
+		n += d
+		if n < 1 {
+			return
+		}
+	}
 }
